@@ -5,8 +5,19 @@ pymoto.Network / Signal / SignalSlice, run (response, seeds, sensitivity), and t
 linear graphs, every state) is compared inside Coq with the model evaluated by vm_compute.  Every case is also checked
 (inside Coq) to satisfy the hypotheses of the theorem (net_ok), so the theorem applies to each compared case.
 Oracle: dense forward-mode Jacobian product in numpy (exact) and central differences of the real network response.
+
+Explored on every run (random stream AND a deterministic stress catalogue, see stress_cases):
+  * Network construction: print_timing (absent / False / True / 0 / 0.0 / 10.0 / 1e9) on the outer and on inner Networks,
+    construction by positional modules / one list / one tuple / append one by one / call syntax / split append, library
+    modules given as dictionaries; the option is part of the model (Net.v: NNet tm, SNet tm);
+  * slices of 1-, 2- and 3-dimensional signals in every admissible index form (integers, basic slices, index lists and
+    arrays, boolean masks, tuples mixing them, all-integer tuples, paired and open-mesh index arrays, Ellipsis, newaxis,
+    partial tuples, chains over views), mapped to repeat-free position lists of the flattened array;
+  * matrix signals whose sensitivities are DyadCarrier objects: modules that produce DyadCarriers, modules that hand the
+    received object through unchanged (to one / two inputs), modules that transform it (scale, transpose, A.T @ d @ B.T),
+    DyadCarrier seeds, DyadCarrier contributions into 2-D slices; compared through todense().
 """
-import os, json, glob, copy
+import os, io, json, glob, copy, contextlib
 from fractions import Fraction
 import numpy as np
 import vlib
@@ -52,9 +63,34 @@ def to_index(level):
         return np.array(level['idx'], dtype=int)
     if t == 'mask':
         return np.array(level['m'], dtype=bool)
+    if t == 'list':                     # a python list (possibly nested) used as index
+        return copy.deepcopy(level['idx'])
+    if t == 'ellipsis':
+        return Ellipsis
+    if t == 'newaxis':
+        return None
     if t == 'tuple':
         return tuple(to_index(x) for x in level['items'])
     raise ValueError(t)
+
+
+def to_level(ix):
+    """inverse of to_index: the JSON description of a python/numpy index object"""
+    if isinstance(ix, tuple):
+        return dict(t='tuple', items=[to_level(x) for x in ix])
+    if isinstance(ix, slice):
+        return dict(t='basic', start=ix.start, stop=ix.stop, step=ix.step)
+    if ix is Ellipsis:
+        return dict(t='ellipsis')
+    if ix is None:
+        return dict(t='newaxis')
+    if isinstance(ix, list):
+        return dict(t='list', idx=copy.deepcopy(ix))
+    if isinstance(ix, np.ndarray):
+        if ix.dtype == bool:
+            return dict(t='mask', m=ix.astype(int).tolist())
+        return dict(t='ints', idx=ix.tolist())
+    return dict(t='int', i=int(ix))
 
 
 def ref_positions(shape, levels):
@@ -72,164 +108,406 @@ def ref_positions(shape, levels):
     return [int(v) for v in cur.ravel()], list(cur.shape), writable
 
 
+FULL = dict(t='basic', start=None, stop=None, step=1)
+
+
+def admissible(shape, levels):
+    """the slice chain is inside the domain of the theorem (wt_ref): it selects at least one position, pairwise
+    different positions, and writes through the chain reach the base array"""
+    try:
+        pos, _, writable = ref_positions(shape, levels)
+    except (IndexError, ValueError, TypeError):
+        return False
+    return writable and len(pos) > 0 and len(set(pos)) == len(pos)
+
+
+def _basic(rng, n):
+    if rng.random() < 0.25:
+        st = rng.choice([-1, -2, 2, 3])
+    else:
+        st = 1
+    for _ in range(20):
+        a, b = rng.randint(0, n), rng.randint(0, n)
+        if st < 0:
+            a, b = max(a, b), min(a, b)
+            lv = dict(t='basic', start=(a - 1 if a > 0 else None), stop=(b - 1 if b > 0 else None), step=st)
+        else:
+            a, b = min(a, b), max(a, b)
+            lv = dict(t='basic', start=a if rng.random() < 0.8 else (a - n if a < n else a), stop=b, step=st)
+        if len(range(n)[to_index(lv)]) > 0:
+            return lv
+    return dict(FULL)
+
+
+def _ints(rng, n, k=None, t='ints'):
+    k = rng.randint(1, n) if k is None else k
+    idx = rng.sample(range(n), k)
+    if rng.random() < 0.3:
+        idx = [i - n if rng.random() < 0.5 else i for i in idx]  # negative positions address the same entries
+    return dict(t=t, idx=idx)
+
+
+def _mask(rng, n):
+    m = [rng.random() < 0.5 for _ in range(n)]
+    if not any(m):
+        m[rng.randrange(n)] = True
+    return dict(t='mask', m=[int(b) for b in m])
+
+
+def _adv(rng, n):
+    """an advanced (copying) index for one axis: index array, index list or boolean mask"""
+    r = rng.random()
+    if r < 0.4:
+        return _ints(rng, n)
+    if r < 0.75:
+        return _ints(rng, n, t='list')
+    return _mask(rng, n)
+
+
+def _draw_1d(rng, n):
+    r = rng.random()
+    if r < 0.22:
+        return 'basic', [_basic(rng, n)]
+    if r < 0.36:
+        return 'int-array', [_ints(rng, n)]
+    if r < 0.42:
+        return 'int-list', [_ints(rng, n, t='list')]
+    if r < 0.50:
+        return 'mask', [_mask(rng, n)]
+    if r < 0.58:
+        return 'scalar-index', [dict(t='int', i=rng.randrange(-n, n))]
+    if r < 0.68:
+        l1 = _basic(rng, n)
+        return 'nested-basic', [l1, _basic(rng, len(range(n)[to_index(l1)]))]
+    if r < 0.76:
+        l1 = _basic(rng, n)
+        return 'basic-then-array', [l1, _ints(rng, len(range(n)[to_index(l1)]))]
+    if r < 0.86:      # a 1-tuple around any of the single forms
+        inner = rng.choice([_basic(rng, n), _ints(rng, n), _ints(rng, n, t='list'), _mask(rng, n),
+                            dict(t='int', i=rng.randrange(-n, n))])
+        return '1d-tuple', [dict(t='tuple', items=[inner])]
+    if r < 0.91:      # a 2-D index array: the value of the slice is a matrix
+        k = rng.choice([x for x in (2, 4, 6) if x <= n] or [1])
+        idx = rng.sample(range(n), k)
+        rows = 2 if k % 2 == 0 and rng.random() < 0.7 else 1
+        return '1d-index-matrix', [dict(t='ints', idx=[idx[i * (k // rows):(i + 1) * (k // rows)] for i in range(rows)])]
+    if r < 0.96:
+        inner = rng.choice([_basic(rng, n), dict(t='int', i=rng.randrange(-n, n)), _ints(rng, n, t='list')])
+        items = [dict(t='ellipsis'), inner] if rng.random() < 0.5 else [inner, dict(t='ellipsis')]
+        return '1d-ellipsis', [dict(t='tuple', items=items)]
+    items = [_basic(rng, n)]
+    items.insert(rng.randint(0, 1), dict(t='newaxis'))
+    return '1d-newaxis', [dict(t='tuple', items=items)]
+
+
+ND_FORMS = [('row', 5), ('rows-array', 4), ('rows-list', 3), ('rows-mask', 3), ('mask-full', 4), ('tuple-slices', 9),
+            ('tuple-int-slice', 8), ('tuple-all-int', 8), ('tuple-slice-adv', 10), ('tuple-int-adv', 8),
+            ('tuple-adv-pairs', 8), ('tuple-open-mesh', 6), ('tuple-ellipsis', 5), ('tuple-newaxis', 3),
+            ('tuple-partial', 3), ('chain-row-then-basic', 4), ('chain-view-then-index', 9)]
+
+
+def _draw_nd(rng, shape):
+    import itertools
+    nd = len(shape)
+
+    def sl(ax):
+        return _basic(rng, shape[ax]) if rng.random() < 0.6 else dict(FULL)
+
+    def it(ax):
+        return dict(t='int', i=rng.randrange(-shape[ax], shape[ax]))
+
+    def anyof(ax):
+        return rng.choice([sl, it, lambda a: _adv(rng, shape[a])])(ax)
+    form = rng.choices([f for f, _ in ND_FORMS], [w for _, w in ND_FORMS])[0]
+    tup = lambda items: [dict(t='tuple', items=items)]
+    if form == 'row':
+        return form, [it(0)]
+    if form == 'rows-array':
+        return form, [_ints(rng, shape[0])]
+    if form == 'rows-list':
+        return form, [_ints(rng, shape[0], t='list')]
+    if form == 'rows-mask':
+        return form, [_mask(rng, shape[0])]
+    if form == 'mask-full':
+        bits = [int(rng.random() < 0.5) for _ in range(size_of(shape))]
+        if not any(bits):
+            bits[rng.randrange(len(bits))] = 1
+        return form, [dict(t='mask', m=np.array(bits).reshape(shape).tolist())]
+    if form == 'tuple-slices':
+        return form, tup([sl(ax) for ax in range(nd)])
+    if form == 'tuple-int-slice':
+        axes = rng.sample(range(nd), rng.randint(1, nd - 1))
+        return form, tup([it(ax) if ax in axes else sl(ax) for ax in range(nd)])
+    if form == 'tuple-all-int':
+        return form, tup([it(ax) for ax in range(nd)])
+    if form == 'tuple-slice-adv':
+        a = rng.randrange(nd)
+        return form, tup([_adv(rng, shape[ax]) if ax == a else sl(ax) for ax in range(nd)])
+    if form == 'tuple-int-adv':
+        a, b = rng.sample(range(nd), 2)
+        return form, tup([_adv(rng, shape[ax]) if ax == a else it(ax) if ax == b else rng.choice([sl, it])(ax)
+                          for ax in range(nd)])
+    if form == 'tuple-adv-pairs':       # U[rows, cols]: index arrays/lists broadcast against each other
+        axes = sorted(rng.sample(range(nd), rng.randint(2, nd)))
+        combos = list(itertools.product(*[range(shape[a]) for a in axes]))
+        pts = rng.sample(combos, rng.randint(1, min(4, len(combos))))
+        items = []
+        for ax in range(nd):
+            if ax in axes:
+                col = [p[axes.index(ax)] for p in pts]
+                if rng.random() < 0.3:
+                    col = [c - shape[ax] if rng.random() < 0.5 else c for c in col]
+                items.append(dict(t=rng.choice(['ints', 'list']), idx=col))
+            else:
+                items.append(rng.choice([sl, it])(ax))
+        return form, tup(items)
+    if form == 'tuple-open-mesh':       # U[np.ix_(rows, cols)]
+        a, b = sorted(rng.sample(range(nd), 2))
+        ra = rng.sample(range(shape[a]), rng.randint(1, shape[a]))
+        rb = rng.sample(range(shape[b]), rng.randint(1, shape[b]))
+        items = []
+        for ax in range(nd):
+            if ax == a:
+                items.append(dict(t=rng.choice(['ints', 'list']), idx=[[r] for r in ra]))
+            elif ax == b:
+                items.append(dict(t=rng.choice(['ints', 'list']), idx=[rb]))
+            else:
+                items.append(rng.choice([sl, it])(ax))
+        return form, tup(items)
+    if form == 'tuple-ellipsis':
+        r = rng.random()
+        if r < 0.4:
+            items = [dict(t='ellipsis'), anyof(nd - 1)]
+        elif r < 0.8:
+            items = [anyof(0), dict(t='ellipsis')]
+        else:
+            items = [anyof(0), dict(t='ellipsis'), anyof(nd - 1)]
+        return form, tup(items)
+    if form == 'tuple-newaxis':
+        items = [rng.choice([sl, it])(ax) for ax in range(nd)]
+        items.insert(rng.randint(0, nd), dict(t='newaxis'))
+        return form, tup(items)
+    if form == 'tuple-partial':
+        return form, tup([anyof(ax) for ax in range(rng.randint(1, nd - 1))])
+    if form == 'chain-row-then-basic':
+        return form, [it(0), _basic(rng, shape[1])]
+    # a view (tuple of basic slices), then any index form of the view
+    l1 = dict(t='tuple', items=[sl(ax) for ax in range(nd)])
+    _, vshape, _ = ref_positions(shape, [l1])
+    if len(vshape) == 0 or min(vshape) == 0:
+        return 'tuple-slices', [l1]
+    _, l2 = _draw_levels(rng, tuple(vshape))
+    return form, [l1] + l2[:1]
+
+
+def _draw_levels(rng, shape):
+    return _draw_1d(rng, shape[0]) if len(shape) == 1 else _draw_nd(rng, shape)
+
+
 def rand_levels(rng, shape, stats):
-    """a random admissible slice chain for a signal of this shape (C18 domain: basic slices, tuples of slices,
-    integer arrays without repeats, boolean masks, nested basic slices); None when the signal cannot be sliced"""
+    """a random admissible slice chain for a signal of this shape (C18 domain; every index form numpy offers: integers,
+    basic slices, index arrays / lists, boolean masks, tuples mixing them, all-integer tuples, paired and open-mesh
+    index arrays, Ellipsis, newaxis, partial tuples, chains over views); None when the signal cannot be sliced"""
     if len(shape) == 0:
         return None
-    n = shape[0]
-
-    def basic(n):
-        if rng.random() < 0.25:
-            st = rng.choice([-1, -2, 2, 3])
-        else:
-            st = 1
-        for _ in range(20):
-            a, b = rng.randint(0, n), rng.randint(0, n)
-            if st < 0:
-                a, b = max(a, b), min(a, b)
-                lv = dict(t='basic', start=(a - 1 if a > 0 else None), stop=(b - 1 if b > 0 else None), step=st)
-            else:
-                a, b = min(a, b), max(a, b)
-                lv = dict(t='basic', start=a if rng.random() < 0.8 else (a - n if a < n else a), stop=b, step=st)
-            if len(range(n)[to_index(lv)]) > 0:
-                return lv
-        return dict(t='basic', start=None, stop=None, step=1)
-
-    def ints(n):
-        k = rng.randint(1, n)
-        idx = rng.sample(range(n), k)
-        if rng.random() < 0.3:
-            idx = [i - n if rng.random() < 0.5 else i for i in idx]  # negative positions address the same entries
-        return dict(t='ints', idx=idx)
-
-    def mask(n):
-        m = [rng.random() < 0.5 for _ in range(n)]
-        if not any(m):
-            m[rng.randrange(n)] = True
-        return dict(t='mask', m=[int(b) for b in m])
-
-    r = rng.random()
-    if len(shape) == 1:
-        if r < 0.30:
-            stats('slice:basic'); return [basic(n)]
-        if r < 0.50:
-            stats('slice:int-array'); return [ints(n)]
-        if r < 0.62:
-            stats('slice:mask'); return [mask(n)]
-        if r < 0.72:
-            stats('slice:scalar-index'); return [dict(t='int', i=rng.randrange(-n, n))]
-        if r < 0.86:
-            stats('slice:nested-basic')
-            l1 = basic(n)
-            n1 = len(range(n)[to_index(l1)])
-            return [l1, basic(n1)]
-        stats('slice:basic-then-array')
-        l1 = basic(n)
-        n1 = len(range(n)[to_index(l1)])
-        return [l1, ints(n1)]
-    m = shape[1]
-    if r < 0.25:
-        stats('slice:2d-row'); return [dict(t='int', i=rng.randrange(n))]
-    if r < 0.5:
-        stats('slice:2d-column'); return [dict(t='tuple', items=[dict(t='basic', start=None, stop=None, step=1), dict(t='int', i=rng.randrange(m))])]
-    if r < 0.75:
-        stats('slice:2d-block'); return [dict(t='tuple', items=[basic(n), basic(m)])]
-    if r < 0.88:
-        stats('slice:2d-rows-array'); return [ints(n)]
-    stats('slice:2d-row-then-basic'); return [dict(t='int', i=rng.randrange(n)), basic(m)]
+    for _ in range(30):
+        label, levels = _draw_levels(rng, shape)
+        if admissible(shape, levels):
+            stats('slice:' + label)
+            return levels
+        stats('slice-redrawn:' + label)
+    stats('slice:full')
+    return [dict(FULL)]
 
 
 def is_nonlinear(m):
     return m['kind'] in ('sq', 'mul') or (m['kind'] == 'einsum' and ',' in m['expr'])
 
 
+PT_VALUES = [True, True, 0.0, 10.0, 0, 1e9, False]
+CTORS = ['args', 'args', 'list', 'tuple', 'append', 'call', 'split']
+DENSE, ANYCAP, DYCAP = ('dense', 'slice2d'), ('dense', 'slice2d', 'dyad'), ('dyad', 'slice2d')
+
+
+def rand_net_opts(rng, stats, p=0.45):
+    """construction options of one Network: {} = Network(*mods) with the default print_timing"""
+    o = {}
+    if rng.random() < p:
+        o['print_timing'] = rng.choice(PT_VALUES)
+    if rng.random() < 0.4:
+        o['ctor'] = rng.choice(CTORS)
+    stats('print_timing:' + repr(o.get('print_timing', 'default')))
+    stats('ctor:' + o.get('ctor', 'args'))
+    return o
+
+
 def gen_case(rng, stats):
     sigs, sources = [], {}
+    matrix_mode = rng.random() < 0.3          # biased towards matrix signals and DyadCarrier sensitivities
+    stats('mode:matrix' if matrix_mode else 'mode:general')
 
-    def new_sig(shape):
-        sigs.append(dict(shape=list(shape)))
+    def new_sig(shape, dyad=0):
+        sigs.append(dict(shape=list(shape), dyad=int(dyad)) if dyad else dict(shape=list(shape)))
         return len(sigs) - 1
 
     def rand_shape():
         r = rng.random()
+        if matrix_mode:
+            if r < 0.05:
+                return ()
+            if r < 0.25:
+                return (rng.randint(1, 4),)
+            if r < 0.92:
+                return (rng.randint(1, 3), rng.randint(1, 3))
+            return (rng.randint(1, 2), rng.randint(1, 3), rng.randint(1, 2))
         if r < 0.08:
             return ()
-        if r < 0.72:
+        if r < 0.62:
             return (rng.randint(1, 4),)
-        return (rng.randint(1, 3), rng.randint(1, 3))
+        if r < 0.92:
+            return (rng.randint(1, 3), rng.randint(1, 4))
+        return (rng.randint(1, 2), rng.randint(1, 3), rng.randint(1, 3))
 
-    for _ in range(rng.randint(1, 3)):
-        s = new_sig(rand_shape())
+    p_dy = 0.6 if matrix_mode else 0.12
+
+    def small():
+        return rng.randint(-2, 2)
+
+    for k in range(rng.randint(1, 3) + (1 if matrix_mode else 0)):
+        sh = rand_shape()
+        s = new_sig(sh, dyad=(k > 0 and len(sh) == 2 and rng.random() < p_dy))
         sources[s] = [rng.randint(-3, 3) for _ in range(size_of(sigs[s]['shape']))]
     avail = sorted(sources)
     nmods = rng.randint(2, 9)
     mods = []
 
-    def pick_ref(want_shape=None, allow_slice=True):
-        """a reference to an available signal; optionally one whose value has exactly this shape"""
-        for _ in range(12):
+    def pick_ref(want_shape=None, allow_slice=True, caps=DENSE, rank=None):
+        """a reference to an available signal; optionally one whose value has exactly this shape / rank.
+        cap: 'dyad' = whole matrix signal whose sensitivity is a DyadCarrier (its consumers must contribute DyadCarriers;
+        never sliced), 'slice2d' = matrix-valued slice of a dense signal (takes dense and DyadCarrier contributions),
+        'dense' = anything else (dense contributions only)"""
+        for _ in range(16):
             s = rng.choice(avail)
             shape = tuple(sigs[s]['shape'])
             levels = None
-            if allow_slice and rng.random() < 0.4:
+            if sigs[s].get('dyad'):
+                if 'dyad' not in caps:
+                    continue
+            elif allow_slice and rng.random() < 0.4:
                 levels = rand_levels(rng, shape, stats)
             if levels:
                 _, vshape, _ = ref_positions(shape, levels)
             else:
                 vshape = list(shape)
+            cap = 'dyad' if sigs[s].get('dyad') else ('slice2d' if levels and len(vshape) == 2 else 'dense')
+            if cap not in caps:
+                continue
+            if rank is not None and len(vshape) != rank:
+                continue
             if want_shape is None or tuple(vshape) == tuple(want_shape):
-                return dict(sig=s, levels=levels), tuple(vshape)
-        return None, None
+                return dict(sig=s, levels=levels), tuple(vshape), cap
+        for s in avail:          # no luck: the first whole signal that fits (the first source always takes dense contributions)
+            shape = tuple(sigs[s]['shape'])
+            cap = 'dyad' if sigs[s].get('dyad') else 'dense'
+            if cap in caps and (rank is None or len(shape) == rank) and (want_shape is None or shape == tuple(want_shape)):
+                return dict(sig=s, levels=None), shape, cap
+        return None, None, None
 
+    def out_dyad(caps_in, oshape):
+        """is the output of a pass-through module a DyadCarrier-typed signal?  It must be when an input is, it cannot
+        be when an input only takes dense contributions"""
+        if len(oshape) != 2 or 'dense' in caps_in:
+            return 0
+        if 'dyad' in caps_in:
+            return 1
+        return int(rng.random() < 0.5)
+
+    def emits(cap):
+        return 1 if cap == 'dyad' else int(cap == 'slice2d' and rng.random() < 0.4)
+
+    kinds = ['lin', 'id', 'add', 'sq', 'mul', 'einsum', 'concat', 'scale', 'transpose', 'sandwich', 'bilin']
+    weights = [26, 10, 14, 3, 3, 5, 3, 7, 7, 10, 12] if matrix_mode else [36, 7, 8, 10, 8, 14, 9, 2, 2, 2, 2]
     nonlin = 0
     for _ in range(nmods):
-        kind = rng.choices(['lin', 'id', 'add', 'sq', 'mul', 'einsum', 'concat'], [40, 8, 8, 10, 8, 16, 10])[0]
+        kind = rng.choices(kinds, weights)[0]
         m = None
+        odyad = None
         if nonlin >= 3 and kind in ('sq', 'mul', 'einsum'):
             kind = 'lin'          # at most 3 quadratic modules: the seeded response has degree <= 8 in every source entry
         if kind == 'lin':
             nin, nout = rng.choice([1, 1, 2, 2, 3]), rng.choice([1, 1, 1, 2])
-            ins, ishapes = [], []
+            ins, ishapes, emit = [], [], []
             for k in range(nin):
                 if k > 0 and rng.random() < 0.25:
-                    ins.append(copy.deepcopy(ins[-1])); ishapes.append(ishapes[-1])   # the same signal twice
+                    ins.append(copy.deepcopy(ins[-1])); ishapes.append(ishapes[-1]); emit.append(emit[-1])  # the same signal twice
                     stats('same-signal-twice')
                 else:
-                    r, sh = pick_ref()
-                    ins.append(r); ishapes.append(sh)
+                    r, sh, cap = pick_ref(caps=ANYCAP)
+                    ins.append(r); ishapes.append(sh); emit.append(emits(cap))
             oshapes = [rand_shape() for _ in range(nout)]
+            odyad = [int(len(sh) == 2 and rng.random() < (0.5 if matrix_mode else 0.15)) for sh in oshapes]
             none = [rng.random() < 0.08 for _ in range(nin)]
             blocks = []
             for o in range(nout):
                 for i in range(nin):
                     if rng.random() < 0.75 and not none[i]:
-                        blocks.append([o, i, [[rng.randint(-2, 2) for _ in range(size_of(ishapes[i]))]
+                        blocks.append([o, i, [[small() for _ in range(size_of(ishapes[i]))]
                                               for _ in range(size_of(oshapes[o]))]])
             if rng.random() < 0.15 and blocks:
                 blocks.append(copy.deepcopy(rng.choice(blocks)))      # two blocks for the same (o, i) add up
             m = dict(kind='lin', ins=ins, oshapes=[list(s) for s in oshapes], none=[int(b) for b in none], blocks=blocks)
-        elif kind == 'id':
-            r, sh = pick_ref()
-            m = dict(kind='id', ins=[r], oshapes=[list(sh)])
+            if any(emit):
+                m['emit'] = emit
+                m['decomp'] = rng.choice(['rows', 'cols'])
+        elif kind in ('id', 'scale', 'transpose'):
+            r, sh, cap = pick_ref(caps=ANYCAP, rank=2 if kind == 'transpose' else None)
+            if r is None:
+                kind = 'id'
+                r, sh, cap = pick_ref(caps=ANYCAP)
+            osh = tuple(reversed(sh)) if kind == 'transpose' else sh
+            m = dict(kind=kind, ins=[r], oshapes=[list(osh)])
+            if kind == 'scale':
+                m['c'] = rng.choice([-2, -1, 2, 3, 1, 0])
+            odyad = [out_dyad([cap], osh)]
         elif kind in ('add', 'mul'):
-            r1, sh = pick_ref()
+            r1, sh, cap1 = pick_ref(caps=ANYCAP if kind == 'add' else DENSE)
+            cap2 = cap1
             if rng.random() < 0.3:
                 r2 = copy.deepcopy(r1); stats('same-signal-twice')
             else:
-                r2, _ = pick_ref(want_shape=sh)
+                want = DENSE if kind == 'mul' else {'dyad': DYCAP, 'dense': DENSE, 'slice2d': ANYCAP}[cap1]
+                r2, _, cap2 = pick_ref(want_shape=sh, caps=want)
             if r2 is None:
-                r2 = copy.deepcopy(r1)
+                r2, cap2 = copy.deepcopy(r1), cap1
             m = dict(kind=kind, ins=[r1, r2], oshapes=[list(sh)])
+            if kind == 'add':
+                odyad = [out_dyad([cap1, cap2], sh)]
+        elif kind == 'sandwich':        # Y = A X B
+            r, sh, cap = pick_ref(caps=ANYCAP, rank=2)
+            if r is not None:
+                p_, q_ = rng.randint(1, 3), rng.randint(1, 3)
+                m = dict(kind='sandwich', ins=[r], oshapes=[[p_, q_]],
+                         A=[[small() for _ in range(sh[0])] for _ in range(p_)],
+                         B=[[small() for _ in range(q_)] for _ in range(sh[1])])
+                odyad = [out_dyad([cap], (p_, q_))]
+        elif kind == 'bilin':           # y_a = u_a^T X v_a; the sensitivity is sum_a w_a u_a (x) v_a
+            r, sh, cap = pick_ref(caps=ANYCAP, rank=2)
+            if r is not None:
+                p_ = rng.randint(1, 3)
+                m = dict(kind='bilin', ins=[r], oshapes=[[] if p_ == 1 and rng.random() < 0.5 else [p_]],
+                         U=[[small() for _ in range(sh[0])] for _ in range(p_)],
+                         V=[[small() for _ in range(sh[1])] for _ in range(p_)], emit=[emits(cap)])
         elif kind == 'sq':
-            r, sh = pick_ref()
+            r, sh, _ = pick_ref()
             m = dict(kind='sq', ins=[r], oshapes=[list(sh)])
         elif kind == 'concat':
             ins, tot = [], 0
             for _ in range(rng.randint(1, 3)):
-                r, sh = pick_ref()
+                r, sh, _ = pick_ref()
                 ins.append(r); tot += size_of(sh)
             m = dict(kind='concat', ins=ins, oshapes=[[tot]])
+            if rng.random() < 0.3:
+                m['as_dict'] = 1
         elif kind == 'einsum':
             expr = rng.choice(EINSUMS)
             ops = expr.split('->')[0].split(',')
@@ -238,7 +516,7 @@ def gen_case(rng, stats):
                 want = None
                 # find a reference of the right rank whose extents agree with the letters bound so far
                 for _ in range(15):
-                    r, sh = pick_ref()
+                    r, sh, _ = pick_ref()
                     if len(sh) != len(op):
                         continue
                     if all(letters.get(c, d) == d for c, d in zip(op, sh)) and all(sh[a] == sh[b] for a in range(len(op)) for b in range(len(op)) if op[a] == op[b]):
@@ -253,18 +531,26 @@ def gen_case(rng, stats):
             if ok:
                 out = expr.split('->')[1]
                 m = dict(kind='einsum', expr=expr, ins=ins, oshapes=[[letters[c] for c in out]])
+                if rng.random() < 0.3:
+                    m['as_dict'] = 1
         if m is None:       # fall back to a small linear module
-            r, sh = pick_ref()
+            r, sh, _ = pick_ref()
             osh = rand_shape()
             m = dict(kind='lin', ins=[r], oshapes=[list(osh)], none=[0],
-                     blocks=[[0, 0, [[rng.randint(-2, 2) for _ in range(size_of(sh))] for _ in range(size_of(osh))]]])
+                     blocks=[[0, 0, [[small() for _ in range(size_of(sh))] for _ in range(size_of(osh))]]])
+            odyad = None
         if is_nonlinear(m):
             nonlin += 1
-        m['outs'] = [new_sig(s) for s in m['oshapes']]
+        m['outs'] = [new_sig(s, dyad=(odyad[i] if odyad else 0)) for i, s in enumerate(m['oshapes'])]
+        for o in m['outs']:
+            if sigs[o].get('dyad'):
+                stats('dyad-signal:' + m['kind'])
+        if any(m.get('emit', [])):
+            stats('dyad-emitter:' + m['kind'])
         mods.append(m)
         avail += m['outs']
 
-    # nesting: consecutive chunks wrapped into inner Networks
+    # nesting: consecutive chunks wrapped into inner Networks, each with its own construction options
     def nest(lst, depth):
         if depth == 0 or len(lst) == 0 or rng.random() < 0.35:
             return list(lst)
@@ -273,7 +559,9 @@ def gen_case(rng, stats):
             w = rng.randint(1, max(1, len(lst) - k))
             chunk = lst[k:k + w]
             if rng.random() < 0.5:
-                out.append(nest(chunk, depth - 1))
+                sub = nest(chunk, depth - 1)
+                o = rand_net_opts(rng, stats, p=0.35)
+                out.append(dict(o, mods=sub) if o else sub)
             else:
                 out += chunk
             k += w
@@ -281,10 +569,11 @@ def gen_case(rng, stats):
             out.insert(rng.randint(0, len(out)), [])          # an empty inner Network
         return out
     tree = nest(list(range(len(mods))), 3)
+    net = rand_net_opts(rng, stats)
 
     # seeds: mostly outputs nobody reads, sometimes intermediates or sources; sometimes nothing at all
     read = {r['sig'] for m in mods for r in m['ins']}
-    seeds = {}
+    seeds, seed_uv = {}, {}
     for s in range(len(sigs)):
         if s in sources:
             p = 0.06
@@ -293,21 +582,50 @@ def gen_case(rng, stats):
         else:
             p = 0.65
         if rng.random() < p:
-            seeds[s] = [rng.randint(-3, 3) for _ in range(size_of(sigs[s]['shape']))]
-    return dict(signals=sigs, sources={str(k): v for k, v in sources.items()}, modules=mods, tree=tree,
+            if sigs[s].get('dyad'):     # the user seeds a DyadCarrier
+                n_, m_ = sigs[s]['shape']
+                uv = [[[small() for _ in range(n_)], [small() for _ in range(m_)]] for _ in range(rng.randint(1, 2))]
+                seed_uv[s] = uv
+                seeds[s] = [int(x) for x in sum(np.outer(u, v) for u, v in uv).ravel()]
+            else:
+                seeds[s] = [rng.randint(-3, 3) for _ in range(size_of(sigs[s]['shape']))]
+    case = dict(signals=sigs, sources={str(k): v for k, v in sources.items()}, modules=mods, tree=tree,
                 seeds={str(k): v for k, v in seeds.items()})
+    if net:
+        case['net'] = net
+    if seed_uv:
+        case['seed_uv'] = {str(k): v for k, v in seed_uv.items()}
+    return case
 
 
 # ----------------------------------------------------------------------------- the real network
 def make_module_classes(pym):
+    def dense(w):
+        """a received sensitivity as numbers (DyadCarriers are expanded)"""
+        return w.todense() if isinstance(w, pym.DyadCarrier) else w
+
     def flat(x):
-        return np.asarray(x, dtype=float).ravel()
+        return np.asarray(dense(x), dtype=float).ravel()
+
+    def as_dyads(G, decomp='rows'):
+        """the matrix G as a DyadCarrier: sum_i e_i (x) G[i, :]  or  sum_j G[:, j] (x) e_j"""
+        n, m = G.shape
+        d = pym.DyadCarrier(shape=(n, m))
+        if decomp == 'rows':
+            for i in range(n):
+                d.add_dyad(np.eye(n)[i], G[i, :])
+        else:
+            for j in range(m):
+                d.add_dyad(G[:, j], np.eye(m)[j])
+        return d
 
     class LinMod(pym.Module):
-        """user-defined module with a dense block Jacobian"""
-        def _prepare(self, blocks, oshapes, none):
+        """user-defined module with a dense block Jacobian; for inputs flagged in `emit` the sensitivity is handed
+        over as a DyadCarrier"""
+        def _prepare(self, blocks, oshapes, none, emit=None, decomp='rows'):
             self.blocks = [(o, i, np.array(M, dtype=float).reshape(len(M), -1)) for o, i, M in blocks]
             self.oshapes, self.none = oshapes, none
+            self.emit, self.decomp = emit or [0] * len(none), decomp
 
         def _response(self, *xs):
             ys = [np.zeros(size_of(sh)) for sh in self.oshapes]
@@ -322,7 +640,8 @@ def make_module_classes(pym):
             for o, i, M in self.blocks:
                 if ws[o] is not None and not self.none[i]:
                     gs[i] = gs[i] + M.reshape(flat(ws[o]).size, gs[i].size).T @ flat(ws[o])
-            return [None if self.none[i] else g.reshape(sh) for i, (g, sh) in enumerate(zip(gs, shapes))]
+            return [None if self.none[i] else (as_dyads(g.reshape(sh), self.decomp) if self.emit[i] else g.reshape(sh))
+                    for i, (g, sh) in enumerate(zip(gs, shapes))]
 
     class IdMod(pym.Module):
         """passes its input object on and returns the very sensitivity object it receives"""
@@ -339,6 +658,49 @@ def make_module_classes(pym):
         def _sensitivity(self, dy):
             return [dy, dy]         # the same object for both inputs
 
+    class ScaleMod(pym.Module):
+        def _prepare(self, c):
+            self.c = c
+
+        def _response(self, x):
+            return self.c * x
+
+        def _sensitivity(self, dy):
+            return self.c * dy      # ndarray -> new ndarray, DyadCarrier -> new DyadCarrier
+
+    class TransposeMod(pym.Module):
+        def _response(self, x):
+            return x.T
+
+        def _sensitivity(self, dy):
+            return dy.T             # ndarray -> a view on the output sensitivity, DyadCarrier -> a transposed copy
+
+    class SandwichMod(pym.Module):
+        """Y = A X B"""
+        def _prepare(self, A, B):
+            self.A, self.B = np.array(A, dtype=float), np.array(B, dtype=float)
+
+        def _response(self, x):
+            return self.A @ x @ self.B
+
+        def _sensitivity(self, dy):
+            return self.A.T @ dy @ self.B.T     # stays a DyadCarrier when dy is one
+
+    class BilinMod(pym.Module):
+        """y_a = u_a^T X v_a (as in compliance-type responses); dX = sum_a w_a u_a (x) v_a, optionally as DyadCarrier"""
+        def _prepare(self, U, V, scalar, emit):
+            self.U, self.V, self.scalar, self.emit = np.array(U, dtype=float), np.array(V, dtype=float), scalar, emit
+
+        def _response(self, x):
+            y = np.array([u @ x @ v for u, v in zip(self.U, self.V)])
+            return float(y[0]) if self.scalar else y
+
+        def _sensitivity(self, dy):
+            w = np.atleast_1d(np.asarray(dy, dtype=float)).ravel()
+            if self.emit:
+                return pym.DyadCarrier([wa * u for wa, u in zip(w, self.U)], [v for v in self.V])
+            return sum(wa * np.outer(u, v) for wa, u, v in zip(w, self.U, self.V))
+
     class SqMod(pym.Module):
         def _response(self, x):
             return x * x
@@ -352,7 +714,52 @@ def make_module_classes(pym):
 
         def _sensitivity(self, dy):
             return self.sig_in[1].state * dy, self.sig_in[0].state * dy
-    return dict(lin=LinMod, id=IdMod, add=AddMod, sq=SqMod, mul=MulMod)
+    return dict(lin=LinMod, id=IdMod, add=AddMod, sq=SqMod, mul=MulMod, scale=ScaleMod, transpose=TransposeMod,
+                sandwich=SandwichMod, bilin=BilinMod, dense=dense)
+
+
+def tree_items(t):
+    """members of a (sub)network description: a list, or a dict {mods: [...], print_timing: ..., ctor: ...}"""
+    return t['mods'] if isinstance(t, dict) else t
+
+
+def tree_opts(t):
+    return {k: v for k, v in t.items() if k != 'mods'} if isinstance(t, dict) else {}
+
+
+def flat_mods(case, t=None):
+    for x in tree_items(case['tree'] if t is None else t):
+        if isinstance(x, int):
+            yield case['modules'][x]
+        else:
+            yield from flat_mods(case, x)
+
+
+def make_network(pym, members, opts):
+    """pymoto.Network over `members` (modules, inner networks or module dictionaries) built the way `opts` says"""
+    kw = dict(print_timing=opts['print_timing']) if 'print_timing' in opts else {}
+    ctor = opts.get('ctor', 'args')
+    if ctor == 'args':
+        return pym.Network(*members, **kw)
+    if ctor == 'list':
+        return pym.Network(list(members), **kw)
+    if ctor == 'tuple':
+        return pym.Network(tuple(members), **kw)
+    net = pym.Network(**kw)
+    if ctor == 'append':
+        for m in members:
+            net.append(m)
+    elif ctor == 'call':
+        for m in members:
+            net(m)
+    elif ctor == 'split':       # some at construction, the rest by one append of several modules
+        k = len(members) // 2
+        net = pym.Network(*members[:k], **kw)
+        if members[k:]:
+            net.append(*members[k:])
+    else:
+        raise ValueError(ctor)
+    return net
 
 
 def build(pym, classes, case):
@@ -372,19 +779,46 @@ def build(pym, classes, case):
         outs = [sigs[o] for o in m['outs']]
         k = m['kind']
         if k == 'lin':
-            mods.append(classes['lin'](ins, outs, m['blocks'], [tuple(s) for s in m['oshapes']], m['none']))
-        elif k in ('id', 'add', 'sq', 'mul'):
+            mods.append(classes['lin'](ins, outs, m['blocks'], [tuple(s) for s in m['oshapes']], m['none'],
+                                       emit=m.get('emit'), decomp=m.get('decomp', 'rows')))
+        elif k in ('id', 'add', 'sq', 'mul', 'transpose'):
             mods.append(classes[k](ins, outs))
+        elif k == 'scale':
+            mods.append(classes[k](ins, outs, m['c']))
+        elif k == 'sandwich':
+            mods.append(classes[k](ins, outs, m['A'], m['B']))
+        elif k == 'bilin':
+            mods.append(classes[k](ins, outs, m['U'], m['V'], len(m['oshapes'][0]) == 0, m.get('emit', [0])[0]))
         elif k == 'einsum':
-            mods.append(pym.EinSum(ins, outs, expression=m['expr']))
+            # library modules may also be handed to Network as dictionaries
+            mods.append(dict(type='EinSum', sig_in=ins, sig_out=outs, expression=m['expr']) if m.get('as_dict')
+                        else pym.EinSum(ins, outs, expression=m['expr']))
         elif k == 'concat':
-            mods.append(pym.ConcatSignal(ins, outs))
+            mods.append(dict(type='ConcatSignal', sig_in=ins, sig_out=outs) if m.get('as_dict')
+                        else pym.ConcatSignal(ins, outs))
         else:
             raise ValueError(k)
 
-    def mknet(t):
-        return pym.Network(*[mods[x] if isinstance(x, int) else mknet(x) for x in t])
-    return sigs, mods, mknet(case['tree'])
+    def mknet(t, opts):
+        return make_network(pym, [mods[x] if isinstance(x, int) else mknet(tree_items(x), tree_opts(x)) for x in t], opts)
+    return sigs, mods, mknet(case['tree'], case.get('net', {}))
+
+
+def seed_value(pym, case, k):
+    """the object the user stores in Signal.sensitivity: float, ndarray, or a DyadCarrier for DyadCarrier-typed signals"""
+    sg = case['signals'][int(k)]
+    sh = tuple(sg['shape'])
+    v = case['seeds'][k]
+    if sg.get('dyad'):
+        d = pym.DyadCarrier(shape=sh)
+        uv = case.get('seed_uv', {}).get(k)
+        if uv is None:
+            W = np.array(v, dtype=float).reshape(sh)
+            uv = [[np.eye(sh[0])[i], W[i]] for i in range(sh[0])]
+        for u, w in uv:
+            d.add_dyad(np.array(u, dtype=float), np.array(w, dtype=float))
+        return d
+    return np.array(v, dtype=float).reshape(sh) if len(sh) else float(v[0])
 
 
 def flat_ints(a):
@@ -398,14 +832,15 @@ def flat_ints(a):
 
 
 def run_impl(pym, classes, case):
-    sigs, mods, net = build(pym, classes, case)
-    net.response()
-    states = [None if s.state is None else flat_ints(s.state) for s in sigs]
-    for k, v in case['seeds'].items():
-        sh = tuple(case['signals'][int(k)]['shape'])
-        sigs[int(k)].sensitivity = np.array(v, dtype=float).reshape(sh) if len(sh) else float(v[0])
-    net.sensitivity()
-    sens = [None if s.sensitivity is None else flat_ints(s.sensitivity) for s in sigs]
+    with contextlib.redirect_stdout(io.StringIO()):         # print_timing reports go nowhere
+        sigs, mods, net = build(pym, classes, case)
+        net.response()
+        states = [None if s.state is None else flat_ints(s.state) for s in sigs]
+        for k in case['seeds']:
+            sigs[int(k)].sensitivity = seed_value(pym, case, k)
+        net.sensitivity()
+    # DyadCarrier sensitivities are observed through todense()
+    sens = [None if s.sensitivity is None else flat_ints(classes['dense'](s.sensitivity)) for s in sigs]
     return states, sens
 
 
@@ -431,6 +866,19 @@ def jac_blocks(case, m, states):
         blocks = [(o, i, M) for o, i, M in m['blocks']]
     elif k == 'id':
         blocks = [(0, 0, eye(idims[0]))]
+    elif k == 'scale':
+        blocks = [(0, 0, [[m['c'] * v for v in row] for row in eye(idims[0])])]
+    elif k == 'transpose':      # Y[j, i] = X[i, j]
+        n_, m_ = np.shape(vals[0])
+        blocks = [(0, 0, [[1 if (a // n_ == c % m_ and a % n_ == c // m_) else 0 for c in range(n_ * m_)] for a in range(n_ * m_)])]
+    elif k == 'sandwich':       # Y[a, b] = sum_ij A[a, i] X[i, j] B[j, b]
+        A, B = m['A'], m['B']
+        n_, m_ = np.shape(vals[0])
+        p_, q_ = len(A), len(B[0]) if B else 0
+        blocks = [(0, 0, [[A[a][i] * B[j][b] for i in range(n_) for j in range(m_)] for a in range(p_) for b in range(q_)])]
+    elif k == 'bilin':          # y_a = sum_ij U[a][i] X[i, j] V[a][j]
+        n_, m_ = np.shape(vals[0])
+        blocks = [(0, 0, [[m['U'][a][i] * m['V'][a][j] for i in range(n_) for j in range(m_)] for a in range(len(m['U']))])]
     elif k == 'add':
         blocks = [(0, 0, eye(idims[0])), (0, 1, eye(idims[1]))]
     elif k == 'sq':
@@ -470,6 +918,12 @@ def coq_ref(case, r):
     return f"{'RSlice' if writable else 'RLost'} {r['sig']} {nl(pos)}"
 
 
+def coq_timing(opts):
+    """Net.v `timing` of Network(..., print_timing=pt): `pt is not False` selects the timed loops"""
+    pt = opts.get('print_timing', False)
+    return 'TOff' if pt is False else ('TOn' if pt is True else 'TMin')
+
+
 def coq_tree(case, states):
     specs = []
     for m in case['modules']:
@@ -478,9 +932,10 @@ def coq_tree(case, states):
         specs.append(f"SMod [{'; '.join(coq_ref(case, r) for r in m['ins'])}] {nl(m['outs'])} "
                      f"(L {nl(idims)} {nl(odims)} [{'; '.join('true' if b else 'false' for b in none)}] {bl})")
 
-    def go(t):
-        return 'SNet [' + '; '.join(f'({specs[x]})' if isinstance(x, int) else f'({go(x)})' for x in t) + ']'
-    return go(case['tree'])
+    def go(t, opts):
+        return f'SNet {coq_timing(opts)} [' + '; '.join(f'({specs[x]})' if isinstance(x, int) else f'({go(tree_items(x), tree_opts(x))})'
+                                                        for x in t) + ']'
+    return go(case['tree'], case.get('net', {}))
 
 
 def opt_list(xs):
@@ -515,13 +970,7 @@ def oracle_dense(case, states, sens):
         for k in range(dims[s]):
             T[s][k, off[s] + k] = 1
 
-    def flat_mods(t):
-        for x in t:
-            if isinstance(x, int):
-                yield case['modules'][x]
-            else:
-                yield from flat_mods(x)
-    for m in flat_mods(case['tree']):
+    for m in flat_mods(case):
         blocks, idims, odims, none = jac_blocks(case, m, states)
         ys = [np.zeros((d, tot), dtype=object) for d in odims]
         for o, i, M in blocks:
@@ -557,14 +1006,16 @@ def oracle_fd(pym, classes, case, sens):
     representable.  Returns (bad, skipped)."""
     dims = [size_of(s['shape']) for s in case['signals']]
 
-    sigs, _, net = build(pym, classes, case)
+    with contextlib.redirect_stdout(io.StringIO()):
+        sigs, _, net = build(pym, classes, case)
 
     def phi(s, k, j):
         for key, v in case['sources'].items():
             sh = tuple(case['signals'][int(key)]['shape'])
             v = [x + (j if (int(key) == s and i == k) else 0) for i, x in enumerate(v)]
             sigs[int(key)].state = np.array(v, dtype=float).reshape(sh) if len(sh) else float(v[0])
-        net.response()
+        with contextlib.redirect_stdout(io.StringIO()):
+            net.response()
         tot = 0
         for sg in sigs:
             if sg.state is not None and np.max(np.abs(np.asarray(sg.state, dtype=float)), initial=0.0) > BIG:
@@ -691,8 +1142,21 @@ def features(case):
             f.add('multi-out')
     if any(v > 1 for v in reads.values()):
         f.add('fan-out')
-    if any(isinstance(x, list) for x in case['tree']):
+    if any(not isinstance(x, int) for x in case['tree']):
         f.add('nested')
+
+    def timed_nets(t, opts):
+        n = int(opts.get('print_timing', False) is not False)
+        return n + sum(timed_nets(tree_items(x), tree_opts(x)) for x in t if not isinstance(x, int))
+    if timed_nets(case['tree'], case.get('net', {})):
+        f.add('print-timing')
+    if any(sg.get('dyad') for sg in case['signals']):
+        f.add('dyad-signal')
+    if any(any(m.get('emit', [])) for m in case['modules']):
+        f.add('dyad-emitter')
+    if any(len(sg['shape']) >= 2 and any(r['sig'] == i and r['levels'] for m in case['modules'] for r in m['ins'])
+           for i, sg in enumerate(case['signals'])):
+        f.add('nd-slice')
     written = {o for m in case['modules'] for o in m['outs']}
     if len([k for k in case['seeds'] if int(k) in written]) > 1:
         f.add('multi-seed')
@@ -703,7 +1167,7 @@ def features(case):
 
 
 def depth(t):
-    return 1 + max([depth(x) for x in t if isinstance(x, list)] + [0])
+    return 1 + max([depth(tree_items(x)) for x in tree_items(t) if not isinstance(x, int)] + [0])
 
 
 def run(ctx):
